@@ -36,7 +36,10 @@ def run(run: core.Run, tier: str):
       "and reporters are compared bit for bit with a FRESH twin built from the current attributes and with the "
       "Lean state machine (QKV.Model.FixedQObj), and each call is one record judged by the clauses against the "
       "format of the CURRENT attributes (under the data-dependent scale of auto_po2: given the scale the object "
-      "reports)")
+      "reports); PLUS family stoch-phase (use_stochastic_rounding set, flag in 4 argument forms, inference phase "
+      "reached by 10 routes, and the flag off in the training phase; model QKV.qbitsS etc.) and stoch-train (the "
+      "TRAINING-phase calls made on those routes: random draws, no model value; judged by on_lattice / minmax / "
+      "cardinality, which Props.C01.C01_*_stoch_on_lattice prove for every draw)")
   fixedq.compare(run, recs)
   import numpy as np
   for r in recs:
